@@ -78,7 +78,7 @@ func (cs *caseJ) key() string {
 }
 
 // The taint tags of Rewrite.tla, each a known (unrepaired) defect of the optimizer.
-var taintTags = []string{"lift-sort-reverse", "lift-sort-nulls", "lift-stateful-expr", "join-dir-nulls", "fork-sortkey", "stale-sortkey", "join-lockstep", "pushdown-error", "merge-filters-error", "pass-placeholder-panic", "sortdir-null-missing"}
+var taintTags = []string{"lift-sort-reverse", "lift-sort-nulls", "lift-stateful-expr", "join-dir-nulls", "fork-sortkey", "stale-sortkey", "join-lockstep", "pushdown-error", "merge-filters-error", "pass-placeholder-panic", "sortdir-null-missing", "where-error-sortkey"}
 
 // The rules of Rewrite.tla (non-vacuity: each must fire in some exported case).
 var ruleNames = []string{"merge-filters", "remove-pass", "lift-summarize", "lift-sort-new-merge", "lift-sort-under-merge",
@@ -358,8 +358,10 @@ func (h *harness) evalCase(r *runner, cs *caseJ, batch int) {
 		case "lift-sort-reverse", "lift-sort-nulls":
 			match = sameBag(U.Rows, O.Rows) // only the order is affected
 		case "lift-stateful-expr", "join-dir-nulls", "pushdown-error", "merge-filters-error":
-			match = sameBag(eO, cs.Opt.S) // exactly the result the transcribed (wrong) rule predicts
-		case "fork-sortkey", "stale-sortkey", "sortdir-null-missing":
+			// exactly the result the transcribed (wrong) rule predicts -- unless that result
+			// is itself not determined (e.g. a tail behind the per-leg counters)
+			match = sameBag(eO, cs.Opt.S) || !cs.Opt.Det || cs.Opt.Poison
+		case "fork-sortkey", "stale-sortkey", "sortdir-null-missing", "where-error-sortkey":
 			match = true // streaming release on keys that are not contiguous: groups are split, schedule dependent
 		}
 		if match {
